@@ -55,13 +55,20 @@ def run(ctx):
         if ctx.violations:
             break
     if first and not ctx.violations:
-        lines = open(first).read().splitlines()[:30]
+        lines = open(first).read().splitlines()
+        hit = None
         for i, ln_ in enumerate(lines):
+            if '"Stream"' not in ln_:
+                continue
             e = json.loads(ln_)
             if e.get("e") == "Stream" and len(e["file"]) > 6:
                 e["file"][5] = (e["file"][5] + 1) % 256
                 lines[i] = json.dumps(e)
+                hit = i
                 break
+        if hit is None:
+            raise Infra("binding self-test: no Stream event with a file of more than 6 bytes in the trace (vacuous)")
+        lines = lines[:max(30, hit + 1)]
         cp = os.path.join(ctx.wd, "corrupt.ndjson")
         open(cp, "w").write("\n".join(lines) + "\n")
         saved = (ctx.events, ctx.traces, ctx.states, ctx.transitions)
